@@ -18,6 +18,7 @@ import (
 	"os/exec"
 	"path/filepath"
 	"strings"
+	"sync"
 	"syscall"
 	"time"
 
@@ -46,12 +47,16 @@ func freePort() string {
 	return l.Addr().String()
 }
 
-func start(relic, dir string, n int) (*proc, error) {
+func start(relic, dir string, n int, metrics bool) (*proc, error) {
 	p := &proc{addr: freePort(), exited: make(chan struct{}), code: -1}
 	p.client = certs.New(certs.Opt{CN: "servex client", EKU: []x509.ExtKeyUsage{x509.ExtKeyUsageClientAuth}}, nil)
 	y := "tokens:\n  file1:\n    type: file\nkeys:\n  k1:\n    token: file1\n    keyfile: /repo/functest/testkeys/rsa2048.key\n    x509certificate: /repo/functest/testkeys/rsa2048.crt\n    roles: [r1]\n" +
 		fmt.Sprintf("server:\n  listen: \"\"\n  listenhttp: %q\n  trustedproxies: [\"127.0.0.1\"]\n  tokencheckinterval: 3600\n  logfile: %s\n", p.addr, filepath.Join(dir, fmt.Sprintf("serve-%d.log", n))) +
 		fmt.Sprintf("clients:\n  %s:\n    nickname: servex\n    roles: [r1]\n", p.client.Fingerprint())
+	if metrics {
+		// a third listener (Prometheus metrics), off by default
+		y = strings.Replace(y, "  trustedproxies:", fmt.Sprintf("  listenmetrics: %q\n  trustedproxies:", freePort()), 1)
+	}
 	cfg := filepath.Join(dir, fmt.Sprintf("serve-%d.yml", n))
 	if err := os.WriteFile(cfg, []byte(y), 0600); err != nil {
 		return nil, err
@@ -203,20 +208,21 @@ func (p *proc) waitExit(d time.Duration) bool {
 }
 
 type scenario struct {
-	name string
-	run  func(p *proc)
+	name    string
+	run     func(p *proc)
+	metrics bool
 }
 
 func scenarios() []scenario {
 	var out []scenario
 	for _, first := range []string{"TERM", "INT", "QUIT", "USR2"} {
 		first := first
-		out = append(out, scenario{"idle-" + first, func(p *proc) {
+		out = append(out, scenario{name: "idle-" + first, run: func(p *proc) {
 			p.signal(first)
 			p.refusedProbe()
 			p.waitExit(10 * time.Second)
 		}})
-		out = append(out, scenario{"inflight-" + first, func(p *proc) {
+		out = append(out, scenario{name: "inflight-" + first, run: func(p *proc) {
 			r1, err := p.begin()
 			if err != nil {
 				p.ev(event{"ev": "DriverError", "what": err.Error()})
@@ -228,7 +234,7 @@ func scenarios() []scenario {
 			p.waitExit(10 * time.Second)
 		}})
 	}
-	out = append(out, scenario{"two-inflight-TERM", func(p *proc) {
+	out = append(out, scenario{name: "two-inflight-TERM", run: func(p *proc) {
 		r1, _ := p.begin()
 		r2, _ := p.begin()
 		if r1 == nil || r2 == nil {
@@ -250,7 +256,7 @@ func scenarios() []scenario {
 	}})
 	for _, second := range []string{"TERM", "INT"} {
 		second := second
-		out = append(out, scenario{"inflight-TERM-" + second, func(p *proc) {
+		out = append(out, scenario{name: "inflight-TERM-" + second, run: func(p *proc) {
 			r1, err := p.begin()
 			if err != nil {
 				p.ev(event{"ev": "DriverError", "what": err.Error()})
@@ -263,7 +269,7 @@ func scenarios() []scenario {
 			p.finish(r1)
 		}})
 	}
-	out = append(out, scenario{"usr1-then-serve-then-TERM", func(p *proc) {
+	out = append(out, scenario{name: "usr1-then-serve-then-TERM", run: func(p *proc) {
 		p.signal("USR1")
 		time.Sleep(300 * time.Millisecond)
 		r1, err := p.begin()
@@ -278,7 +284,38 @@ func scenarios() []scenario {
 		p.refusedProbe()
 		p.waitExit(10 * time.Second)
 	}})
-	out = append(out, scenario{"usr1-during-drain", func(p *proc) {
+	// with the metrics listener configured the process has one more server running: the shutdown must not wait for it
+	out = append(out, scenario{name: "metrics-inflight-TERM", metrics: true, run: func(p *proc) {
+		r1, err := p.begin()
+		if err != nil {
+			p.ev(event{"ev": "DriverError", "what": err.Error()})
+			return
+		}
+		p.signal("TERM")
+		p.refusedProbe()
+		p.finish(r1)
+		p.waitExit(10 * time.Second)
+	}})
+	// a drain that takes longer than half a minute (a slow upload): still served to the end, no exit before
+	out = append(out, scenario{name: "long-drain-TERM", run: func(p *proc) {
+		r1, err := p.begin()
+		if err != nil {
+			p.ev(event{"ev": "DriverError", "what": err.Error()})
+			return
+		}
+		p.signal("TERM")
+		p.refusedProbe()
+		select {
+		case <-p.exited:
+			p.ev(event{"ev": "Exit", "code": p.code})
+			p.finish(r1)
+			return
+		case <-time.After(36 * time.Second):
+		}
+		p.finish(r1)
+		p.waitExit(10 * time.Second)
+	}})
+	out = append(out, scenario{name: "usr1-during-drain", run: func(p *proc) {
 		r1, err := p.begin()
 		if err != nil {
 			p.ev(event{"ev": "DriverError", "what": err.Error()})
@@ -312,21 +349,37 @@ func Main(args []string) {
 		panic(err)
 	}
 	w := bufio.NewWriter(tf)
-	for i, sc := range scenarios() {
-		p, err := start(relic, dir, i)
-		if err != nil {
-			r.Note("%s: %v", sc.name, err)
-			r.Count("start_failed", 1)
+	scs := scenarios()
+	procs := make([]*proc, len(scs))
+	var wg sync.WaitGroup
+	sem := make(chan struct{}, 6)
+	for i, sc := range scs {
+		wg.Add(1)
+		sem <- struct{}{}
+		go func(i int, sc scenario) {
+			defer func() { <-sem; wg.Done() }()
+			p, err := start(relic, dir, i, sc.metrics)
+			if err != nil {
+				r.Note("%s: %v", sc.name, err)
+				r.Count("start_failed", 1)
+				return
+			}
+			p.ev(event{"ev": "Start", "scenario": sc.name})
+			sc.run(p)
+			select {
+			case <-p.exited:
+			default:
+				p.cmd.Process.Kill()
+				<-p.exited
+			}
+			procs[i] = p
+		}(i, sc)
+	}
+	wg.Wait()
+	for i, sc := range scs {
+		p := procs[i]
+		if p == nil {
 			continue
-		}
-		p.ev(event{"ev": "Start", "scenario": sc.name})
-		p.log = p.log[len(p.log)-1:]
-		sc.run(p)
-		select {
-		case <-p.exited:
-		default:
-			p.cmd.Process.Kill()
-			<-p.exited
 		}
 		r.Eval(true)
 		r.Count("scenarios", 1)
